@@ -35,6 +35,8 @@ func main() {
 			os.Exit(code)
 		}
 		os.Exit(mk().Execute(tier))
+	case "path":
+		scen.DebugPath(os.Args[2], os.Args[3], os.Args[4:])
 	case "replay":
 		os.Exit(scen.ReplayFile(os.Args[2]))
 	case "list":
